@@ -38,6 +38,9 @@ THEOREMS = [
     "C21_locks_modes_agree",
     "C21_other_store_never_waits",
     "C21_shared_lock_refutes",
+    "C21_no_connection_scoped_state",
+    "C21_connection_state_modes_agree",
+    "C21_connection_scoped_state_refutes",
 ]
 EXPLANATION = (
     "Lean model WfModel/SqliteConn.lean: the store as a resource-handling state machine. Database content is abstract; what "
@@ -73,7 +76,21 @@ EXPLANATION = (
     "finished, same per-task results, same final tables; a task blocked at quiescence in one mode only is reported with the "
     "operation it is blocked in and the holder of the lock it waits for; hand-computed expectations on the corpus cases in "
     "both modes. K: the lock requests/releases observed through a reporting asyncio.Lock subclass (granted at once / queued / "
-    "handed to which waiter) are diffed against the model's answers for both modes."
+    "handed to which waiter) are diffed against the model's answers for both modes. "
+    "Connection-scoped state: the model has a third layer (`scratchStep`/`runScratch`: TEMP schema objects, attached databases, "
+    "PRAGMA settings as an abstract state of a connection with an abstract per-section semantics; a per-call connection starts "
+    "from the state of a new connection and takes its state along, the persistent one keeps it); the generated list "
+    "`scratchSecs` names the sections whose code, with the helper methods / module functions it reaches, has SQL text on such "
+    "objects; C21_no_connection_scoped_state (decide: the list is empty), C21_connection_state_modes_agree (all histories "
+    "return the same values in both modes and leave the persistent connection as a new one), converse "
+    "C21_connection_scoped_state_refutes. K: the `sec` answer carries `res` (does the section leave such state on the shared "
+    "connection), compared with a probe of the real persistent connection after every section (sqlite_temp_master, "
+    "database_list). S: after every call the persistent connection is probed (TEMP objects, attached databases, 15 PRAGMAs, "
+    "in_transaction) against its state right after construction: `C21/connection_state_left_behind:<what>[<section>]`; "
+    "histories of long-list sweeps (queries / deletes whose filter lists have 120..4000 values, several on one column, "
+    "overlapping and disjoint, all four columns, mixed with short lists, updates and state-store use; handlers with unique run "
+    "ids); every query / delete answer of both modes is compared with a handler table computed from the operations' arguments "
+    "alone: `C21/result_not_determined_by_call:<op>[<mode>;<how>;<filter shape>]`, final handler ids likewise."
 )
 ASSUMPTIONS = [
     "SQLite itself: a statement that fails changes nothing; a new connection sees exactly the committed content; closing a "
@@ -97,6 +114,15 @@ ASSUMPTIONS = [
     "asyncio.Lock itself (not re-entrant, FIFO hand-over) is modelled, and compared with the real lock on every generated "
     "schedule; `lockPerStore` is recognised from the source shape (one attribute of self, a cached_property returning a new "
     "asyncio.Lock() or assigned so in __init__) -- any other shape fails C21_lock_per_store rather than being interpreted",
+    "connection-scoped state: a section without SQL text on TEMP / ATTACH / PRAGMA objects neither reads nor changes them (a "
+    "TEMP table shadowing a main table would be read by any section: the run-time probe after every section is the check for "
+    "that); the migration runner (migrate.py, PRAGMA journal_mode / user_version during construction) is not scanned: the "
+    "probe's baseline is the persistent connection right after construction; a failed data-changing statement leaves sqlite3's "
+    "implicit transaction open on the persistent connection until the next commit (modelled as inTx; reported by the probe only "
+    "for calls that returned normally and did not start inside one)",
+    "the handler oracle covers the filter columns (handler_id, workflow_name, status, run_id, idle_since null-ness); it stops "
+    "for the rest of a history at an update_handler_status on a run id shared by several handlers (which one is updated is "
+    "decided by SQLite's row order)",
     "schedules are compared under the scripted scheduler (single thread, one await-free section at a time, no timers): "
     "subscribe_events (polling with timeouts) is exercised only in the virtual-time scenario",
 ]
@@ -144,6 +170,7 @@ class Inst:
     outcome: str | None = None
     open_after: bool | None = None
     intx_after: bool | None = None
+    residue: bool = False  # the section changed the TEMP objects / attached databases of the shared connection
     done: bool = False
 
 
@@ -179,6 +206,12 @@ class Tracer:
             if self.shared is not None:
                 c.open_after = not getattr(self.shared, "_c21_closed", False)
                 c.intx_after = bool(self.shared.in_transaction) if c.open_after else False
+                if c.open_after:
+                    prev = getattr(self.shared, "_c21_objs", None)
+                    now = probe_objects(self.shared)
+                    if not (now[0] and now[0][0].startswith("error:")):
+                        c.residue = prev is not None and now != prev
+                        self.shared._c21_objs = now
         self.cur = None
 
     def start(self, fn: str, owner: Any) -> Inst:
@@ -565,6 +598,20 @@ def _value(spec: Any) -> Any:
     return spec
 
 
+def expand_list(v: Any) -> Any:
+    """Filter lists may be written compactly: {"ids": [...], "pad": [prefix, start, n]} = ids + prefix<start>..prefix<start+n-1>
+    (values that match nothing unless a handler was stored under such a name); "rev" reverses, "twice" repeats the list."""
+    if isinstance(v, dict) and "pad" in v:
+        pfx, start, n = v["pad"]
+        vals = [str(x) for x in v.get("ids", [])] + [f"{pfx}{i}" for i in range(start, start + n)]
+        if v.get("rev"):
+            vals.reverse()
+        if v.get("twice"):
+            vals = vals + vals
+        return vals
+    return v
+
+
 async def exec_op(side: Side, op: dict) -> str:
     """Run one operation description on one real store; canonical result."""
     from llama_agents.client.protocol.serializable_events import EventEnvelopeWithMetadata
@@ -597,7 +644,7 @@ async def exec_op(side: Side, op: dict) -> str:
         await s.update_handler_status(op["run"], **kw)
         return "none"
     if k in ("ws.query", "ws.delete"):
-        q = HandlerQuery(**{f: op["q"].get(f) for f in ("handler_id_in", "run_id_in", "workflow_name_in", "status_in", "is_idle")})
+        q = HandlerQuery(**{f: expand_list(op["q"].get(f)) for f in ("handler_id_in", "run_id_in", "workflow_name_in", "status_in", "is_idle")})
         if k == "ws.delete":
             return canon(await s.delete(q))
         rows = await s.query(q)
@@ -852,6 +899,86 @@ class OpGen:
         return {"op": "ss.to_dict", "obj": i}
 
 
+# --------------------------------------------------------------------------
+# histories with repeated LONG filter lists (sweeps over hundreds to thousands of ids / run ids / names / statuses)
+
+LONG_SIZES = [120, 400, 520, 650, 999, 1000, 1300, 2100, 4000]
+LONG_COLS = ("handler_id_in", "run_id_in", "workflow_name_in", "status_in")
+LL_WFS = ["wfA", "wfB", "wfC"]
+
+
+def _ll_handler(rng: Any, i: int, status: str | None = None) -> dict:
+    st = status or rng.choice(STATUSES)
+    return {"id": f"k{i:03d}", "wf": rng.choice(LL_WFS), "status": st, "run": f"kr{i:03d}", "error": None,
+            "result": rng.choice([None, None, 7]), "started": 10, "updated": 30,
+            "completed": 40 if st != "running" else None, "idle": rng.choice([None, None, 50])}
+
+
+def _ll_list(rng: Any, col: str, n_handlers: int, long: bool) -> Any:
+    """a filter list for column `col`: a few values that exist plus padding that matches nothing"""
+    if col == "handler_id_in":
+        real = [f"k{i:03d}" for i in rng.sample(range(n_handlers + 3), rng.randint(0, min(8, n_handlers)))]
+        pfx = rng.choice(["gone-k", "old-k"])
+    elif col == "run_id_in":
+        real = [f"kr{i:03d}" for i in rng.sample(range(n_handlers + 3), rng.randint(0, min(8, n_handlers)))]
+        pfx = rng.choice(["gone-r", "old-r"])
+    elif col == "workflow_name_in":
+        real = rng.sample(LL_WFS + ["wfZ"], rng.randint(0, 2))
+        pfx = rng.choice(["retired-wf", "tmp-wf"])
+    else:
+        real = rng.sample(STATUSES, rng.randint(0, 2))
+        pfx = rng.choice(["legacy-status", "x-status"])
+    if not long:
+        return real + [f"{pfx}{i}" for i in range(rng.randint(0, 3))]
+    spec: dict[str, Any] = {"ids": real, "pad": [pfx, rng.choice([0, 0, 300, 1000]), rng.choice(LONG_SIZES)]}
+    if rng.random() < 0.2:
+        spec["rev"] = True
+    if rng.random() < 0.1:
+        spec["twice"] = True
+    return spec
+
+
+def gen_longlist_case(rng: Any) -> dict:
+    """Handlers with unique run ids (so the input oracle stays determined); then sweeps: queries and deletes whose filter
+    lists are long, several on the same column (overlapping / disjoint padding, different existing values), mixed with
+    short ones, updates and state-store use."""
+    n = rng.randint(6, 24)
+    ops: list[dict] = [{"op": "ws.update", "handler": _ll_handler(rng, i)} for i in range(n)]
+    nxt = n
+    cols = rng.sample(LONG_COLS, rng.randint(1, 2))  # the columns this history sweeps repeatedly
+    have_store = False
+    for _ in range(rng.randint(8, 18)):
+        r = rng.random()
+        col = rng.choice(cols) if rng.random() < 0.8 else rng.choice(LONG_COLS)
+        if r < 0.45:
+            q: dict[str, Any] = {col: _ll_list(rng, col, nxt, True)}
+            if rng.random() < 0.2:
+                other = rng.choice([c for c in LONG_COLS if c != col])
+                q[other] = _ll_list(rng, other, nxt, rng.random() < 0.5)
+            if rng.random() < 0.1:
+                q["is_idle"] = rng.random() < 0.5
+            ops.append({"op": "ws.query", "q": q})
+        elif r < 0.62:
+            ops.append({"op": "ws.delete", "q": {col: _ll_list(rng, col, nxt, True)}})
+        elif r < 0.72:
+            ops.append({"op": rng.choice(["ws.query", "ws.query", "ws.delete"]), "q": {col: _ll_list(rng, col, nxt, False)}})
+        elif r < 0.82:
+            i = rng.randrange(nxt + 1)
+            nxt = max(nxt, i + 1)
+            ops.append({"op": "ws.update", "handler": _ll_handler(rng, i)})
+        elif r < 0.88:
+            ops.append({"op": "ws.update_handler_status", "run": f"kr{rng.randrange(nxt + 1):03d}",
+                        "status": rng.choice(STATUSES + [None]), "idle": rng.choice([None, 60])})
+        elif r < 0.94 or not have_store:
+            ops.append({"op": "ws.create_state_store", "run": f"kr{rng.randrange(nxt):03d}"})
+            ops.append({"op": "ss.set", "obj": 0, "path": "k", "value": rng.randint(0, 9)})
+            have_store = True
+        else:
+            ops.append({"op": "ss.get", "obj": 0, "path": "k", "default": None})
+    ops.append({"op": "ws.query", "q": {}})
+    return {"label": "generated long-list sweeps", "ops": ops}
+
+
 CORPUS: list[dict] = [
     {"label": "F19 witness: state store use, then a workflow-store call",
      "ops": [{"op": "ws.create_state_store", "run": "r0"}, {"op": "ss.set", "obj": 0, "path": "a", "value": 1},
@@ -897,6 +1024,19 @@ CORPUS: list[dict] = [
              {"op": "ws.subscribe_events", "run": "r0", "after": -1}, {"op": "ws.query_events", "run": "r0", "after": 0, "limit": 1},
              {"op": "ws.delete", "q": {"status_in": ["completed"]}}, {"op": "ws.delete", "q": {}}, {"op": "ws.query", "q": {}},
              {"op": "ws.get_legacy_ctx", "run": "r0"}, {"op": "ws.after_tick", "run": "r0"}]},
+    {"label": "two long-list sweeps over handler ids, then a long-list purge: each call answers for its own list only",
+     "ops": [{"op": "ws.update", "handler": {"id": f"k{i:03d}", "wf": "wfA", "status": "completed", "run": f"kr{i:03d}",
+                                             "error": None, "result": None, "started": 1, "updated": 2, "completed": 3,
+                                             "idle": None}} for i in range(6)]
+            + [{"op": "ws.query", "q": {"handler_id_in": {"ids": ["k000", "k001"], "pad": ["old-a", 0, 600]}}},
+               {"op": "ws.create_state_store", "run": "kr000"}, {"op": "ss.set", "obj": 0, "path": "k", "value": 1},
+               {"op": "ws.query", "q": {"handler_id_in": {"ids": ["k002", "k003"], "pad": ["old-b", 0, 600]}}},
+               {"op": "ws.query", "q": {"run_id_in": {"ids": ["kr004"], "pad": ["old-r", 0, 1200]}}},
+               {"op": "ws.query", "q": {"run_id_in": {"ids": ["kr005"], "pad": ["old-r", 1000, 1200]}}},
+               {"op": "ws.delete", "q": {"handler_id_in": {"ids": ["k005"], "pad": ["gone", 0, 600]}}},
+               {"op": "ws.query", "q": {"status_in": {"ids": ["completed"], "pad": ["legacy", 0, 700]}}},
+               {"op": "ws.delete", "q": {"status_in": {"ids": ["failed"], "pad": ["legacy", 300, 700]}}},
+               {"op": "ss.get", "obj": 0, "path": "k"}, {"op": "ws.query", "q": {}}]},
     {"label": "typed state store",
      "ops": [{"op": "ws.create_state_store", "run": "r0", "typed": True}, {"op": "ss.get", "obj": 0, "path": "count"},
              {"op": "ss.set", "obj": 0, "path": "count", "value": 3},
@@ -909,6 +1049,141 @@ CORPUS: list[dict] = [
 KNOWN_OPS = {"ws": {"stream_ticks", "after_tick", "update_handler_status", "subscribe_events", "create_state_store", "query",
                     "update", "delete", "append_event", "query_events", "append_tick", "get_ticks", "get_legacy_ctx"},
              "ss": {"get_state", "set_state", "get", "set", "clear", "edit_state", "to_dict"}}
+
+
+# --------------------------------------------------------------------------
+# independent oracle for the handler table (what query / delete must answer, computed from the inputs of the history)
+
+FILTER_COLS = (("handler_id_in", "id"), ("run_id_in", "run"), ("workflow_name_in", "wf"), ("status_in", "status"))
+
+
+def size_bucket(n: int) -> str:
+    return "0" if n == 0 else "1-9" if n < 10 else "10-99" if n < 100 else "100-999" if n < 1000 else "1000+"
+
+
+class HandlerOracle:
+    """The filter columns of the handlers table as a dictionary, maintained from the operations' arguments only.
+    `ok` turns False (for the rest of the history) when the inputs do not determine the table any more: an
+    update_handler_status on a run id that several handlers share (which one is "the first" is not specified)."""
+
+    def __init__(self) -> None:
+        self.rows: dict[str, dict] = {}
+        self.ok = True
+        self.why = ""
+
+    def taint(self, why: str) -> None:
+        if self.ok:
+            self.ok, self.why = False, why
+
+    def _match(self, q: dict) -> list[str] | None:
+        """ids matching the query, or None when the answer is not determined (unbindable values)"""
+        want: dict[str, set] = {}
+        for f, col in FILTER_COLS:
+            v = expand_list(q.get(f))
+            if v is None:
+                continue
+            if not isinstance(v, list) or not all(isinstance(x, str) for x in v):
+                return None
+            want[col] = set(v)
+        idle = q.get("is_idle")
+        res = []
+        for hid, r in self.rows.items():
+            if all(r[col] is not None and r[col] in vals for col, vals in want.items()) \
+                    and (idle is None or bool(r["idle"]) == bool(idle)):
+                res.append(hid)
+        return sorted(res)
+
+    @staticmethod
+    def clauses(q: dict) -> int | None:
+        """number of filter clauses; None when one of the lists is empty (the query matches nothing)"""
+        n = 0
+        for f, _col in FILTER_COLS:
+            v = expand_list(q.get(f))
+            if v is not None:
+                if len(v) == 0:
+                    return None
+                n += 1
+        return n + (1 if q.get("is_idle") is not None else 0)
+
+    def expect(self, op: dict) -> Any:
+        """Apply the operation; for query the expected sorted id list, for delete the expected count; None = not determined."""
+        k = op["op"]
+        if k == "ws.update":
+            h = op["handler"]
+            self.rows[h["id"]] = {"id": h["id"], "wf": h["wf"], "status": h["status"], "run": h.get("run"),
+                                  "idle": h.get("idle") is not None}
+            return None
+        if k == "ws.update_handler_status":
+            hit = [r for r in self.rows.values() if r["run"] == op["run"]]
+            if len(hit) > 1:
+                self.taint(f"update_handler_status on run {op['run']!r} shared by {len(hit)} handlers")
+            elif hit:
+                if op.get("status") is not None:
+                    hit[0]["status"] = op["status"]
+                if "idle" in op:
+                    hit[0]["idle"] = op["idle"] is not None
+            return None
+        if k == "ws.query":
+            if self.clauses(op["q"]) is None:
+                return []
+            return self._match(op["q"])
+        if k == "ws.delete":
+            nc = self.clauses(op["q"])
+            if nc is None or nc == 0:
+                return 0
+            m = self._match(op["q"])
+            if m is None:
+                self.taint("delete with unbindable values")
+                return None
+            for hid in m:
+                del self.rows[hid]
+            return len(m)
+        return None
+
+
+def query_shape(q: dict) -> str:
+    """classifying facts of a query for signatures: which columns are filtered and how long the longest list is"""
+    cols = [col for f, col in FILTER_COLS if q.get(f) is not None]
+    longest = max([len(expand_list(q[f])) for f, _c in FILTER_COLS if q.get(f) is not None] or [0])
+    return f"filter={'+'.join(cols) or 'none'},longest_list={size_bucket(longest)}"
+
+
+# --------------------------------------------------------------------------
+# connection-scoped state of the persistent connection (what a newly opened connection would not have)
+
+PROBE_PRAGMAS = ["foreign_keys", "query_only", "read_uncommitted", "recursive_triggers", "defer_foreign_keys",
+                 "ignore_check_constraints", "reverse_unordered_selects", "cache_size", "busy_timeout", "temp_store",
+                 "synchronous", "locking_mode", "automatic_index", "cell_size_check", "trusted_schema"]
+
+
+def probe_objects(conn: Any) -> tuple:
+    """TEMP schema objects and attached databases of a connection (cheap; run after every section)"""
+    ex = sqlite3.Connection.execute
+    try:
+        temp = tuple(sorted(f"{r[0]}:{r[1]}" for r in ex(conn, "SELECT type, name FROM sqlite_temp_master").fetchall()))
+        dbs = tuple(sorted(r[1] for r in ex(conn, "PRAGMA database_list").fetchall() if r[1] not in ("main", "temp")))
+    except sqlite3.Error as e:
+        return (("error:" + type(e).__name__,), ())
+    return (temp, dbs)
+
+
+def probe_conn(conn: Any) -> dict:
+    """{} when the connection cannot be asked (closed: the closed-connection monitors report that)"""
+    temp, dbs = probe_objects(conn)
+    try:
+        intx = bool(conn.in_transaction)
+    except sqlite3.Error:
+        return {}
+    if temp and temp[0].startswith("error:"):
+        return {}
+    res: dict[str, Any] = {"temp_objects": temp, "attached_databases": dbs, "in_transaction": intx}
+    for name in PROBE_PRAGMAS:
+        try:
+            row = sqlite3.Connection.execute(conn, f"PRAGMA {name}").fetchone()
+            res["pragma:" + name] = row[0] if row else None
+        except sqlite3.Error as e:
+            res["pragma:" + name] = "error:" + type(e).__name__
+    return res
 
 
 # --------------------------------------------------------------------------
@@ -938,6 +1213,7 @@ def run_case(case: dict, table: dict, out: Outcome, tmp: str, idx: int) -> CaseR
     ops_by_name = {(o["tag"], o["name"]): set(o["secs"]) for o in table["ops"]}
     sides = [Side("single", os.path.join(tmp, f"c{idx}_single.db")), Side("percall", os.path.join(tmp, f"c{idx}_percall.db"))]
     payload = {"label": case.get("label", "generated"), "ops": case["ops"]}
+    base_probe: dict[str, Any] = {}
 
     def violate(sig: str, what: str) -> None:
         if not any(v.signature == sig for v in cr.violations):
@@ -959,6 +1235,10 @@ def run_case(case: dict, table: dict, out: Outcome, tmp: str, idx: int) -> CaseR
                 side.dead = True
             elif sh.in_transaction:
                 violate("C21/uncommitted_write:__init__", "the constructor leaves the persistent connection inside a transaction")
+            if not side.dead:
+                base_probe.update(probe_conn(sh))
+                if base_probe:
+                    sh._c21_objs = (base_probe["temp_objects"], base_probe["attached_databases"])
             if sum(i.opened for i in insts) != 1:
                 violate("C21/single_mode_second_connection:__init__",
                         f"construction in single-connection mode opened {sum(i.opened for i in insts)} connections")
@@ -966,10 +1246,19 @@ def run_case(case: dict, table: dict, out: Outcome, tmp: str, idx: int) -> CaseR
             violate("C21/percall_connection_leak:__init__", "the per-call constructor leaves a connection open")
     cr.lines.append("reset")
     cr.impl.append("reset")
+    orc = HandlerOracle()
+    prev_probe: dict[str, Any] = dict(base_probe)  # connection-scoped state at the end of the previous operation
+    intx_before = [False]  # was the persistent connection inside a transaction when the operation started
 
     async def main(_loop: Any) -> None:
         for n, op in enumerate(case["ops"]):
             FakeDatetime.current = datetime(2026, 1, 1, tzinfo=timezone.utc) + timedelta(seconds=n)
+            orc_ok = orc.ok
+            try:
+                expected = orc.expect(op)
+            except Exception as e:  # malformed operation description (replay files): no expectation
+                orc.taint(f"oracle cannot read operation #{n}: {e!r}")
+                expected = None
             results: dict[str, str] = {}
             traces: dict[str, list[Inst]] = {}
             for side in sides:
@@ -1018,6 +1307,68 @@ def run_case(case: dict, table: dict, out: Outcome, tmp: str, idx: int) -> CaseR
                 if pend:
                     violate(f"C21/uncommitted_write:{TR.last_writer or '?'}", f"after {op['op']} the persistent connection "
                             f"holds changes that are not committed to the database file (last writer {TR.last_writer})")
+            # connection-scoped state: after a call the persistent connection has what a newly opened one would have
+            if sh is not None and not shared_closed and base_probe:
+                now = probe_conn(sh)
+                before = dict(prev_probe)
+                prev_probe.update(now)
+                if not now:
+                    out.count("probe:persistent-connection-cannot-be-probed")
+                for key in sorted(now):
+                    if now[key] == base_probe.get(key) or now[key] == before.get(key):
+                        continue  # as after construction / left by an earlier call (reported there)
+                    if key == "in_transaction":
+                        if rs.startswith("raise ") or intx_before[0]:
+                            continue  # a failed statement leaves sqlite3's implicit (empty) transaction open: see ASSUMPTIONS
+                        fn = next((i.fn for i in reversed(ts) if i.intx_after), ts[-1].fn if ts else "?")
+                        violate(f"C21/connection_state_left_behind:open_transaction[{fn}]",
+                                f"operation #{n} {op['op']} returned normally ({rs[:60]!r}) and left the persistent connection "
+                                f"inside a transaction (section {fn}); a per-call connection is closed at this point. "
+                                f"TEMP objects on the connection: {list(now['temp_objects'])}")
+                    else:
+                        fn = next((i.fn for i in reversed(ts) if i.residue), ts[-1].fn if ts else "?")
+                        violate(f"C21/connection_state_left_behind:{key}[{fn}]",
+                                f"after operation #{n} {op['op']} the persistent connection carries connection-scoped state a "
+                                f"newly opened connection does not have: {key} = {now[key]!r} (after construction: "
+                                f"{base_probe.get(key)!r}); it stays for every later call on this store and its state stores")
+                intx_before[0] = bool(now.get("in_transaction"))
+                out.count("probe:connection-state-after-call")
+            # the handler table computed from the inputs: which mode answers something the call does not determine
+            if op["op"] in ("ws.update", "ws.update_handler_status") and (rp.startswith("raise ") or rs.startswith("raise ")):
+                orc.taint(f"operation #{n} {op['op']} raised")
+            if expected is not None and orc_ok and op["op"] in ("ws.query", "ws.delete") and not (closed_now or shared_closed):
+                out.count("oracle:" + op["op"] + ":" + query_shape(op["q"]))
+                got: dict[str, Any] = {}
+                for mode, r in (("single", rs), ("percall", rp)):
+                    if r.startswith("raise "):
+                        got[mode] = r
+                    elif op["op"] == "ws.query":
+                        got[mode] = sorted(d["handler_id"] for d in json.loads(r))
+                    else:
+                        got[mode] = json.loads(r)
+                wrong = [m for m in ("single", "percall") if got[m] != expected]
+                if len(wrong) == 2 and got["single"] == got["percall"]:
+                    out.count("oracle:both-modes-differ-from-the-oracle-identically")
+                    out.notes.append(f"handler oracle: {op['op']} #{n} of case {payload['label']!r} answered {str(got['single'])[:80]} "
+                                     f"in both modes, the inputs give {str(expected)[:80]} (not a mode difference)")
+                    orc.taint("both modes differ from the oracle")
+                elif wrong:
+                    for m in wrong:
+                        g = got[m]
+                        if isinstance(g, str):
+                            kind = "raises"
+                        elif op["op"] == "ws.query":
+                            kind = ("returns_unrequested_handlers" if set(g) > set(expected) else
+                                    "misses_requested_handlers" if set(g) < set(expected) else "other_handlers")
+                        else:
+                            kind = "deletes_too_many" if g > expected else "deletes_too_few"
+                        mname = "single_connection" if m == "single" else "per_call"
+                        violate(f"C21/result_not_determined_by_call:{op['op']}[{mname};{kind};{query_shape(op['q'])}]",
+                                f"operation #{n} {op['op']} on the {mname} store -> {str(g)[:160]}; the handlers stored so far "
+                                f"and this call's filters give {str(expected)[:160]} (the other mode: "
+                                f"{str(got['percall' if m == 'single' else 'single'])[:120]}); earlier calls of the history "
+                                f"changed what this call answers")
+                    orc.taint("after a reported difference")
             # ---- (K) model lines: one per section instance of the per-call run
             if op["op"] == "ws.create_state_store" and not rp.startswith("raise "):
                 pass
@@ -1048,10 +1399,12 @@ def run_case(case: dict, table: dict, out: Outcome, tmp: str, idx: int) -> CaseR
                     continue
                 if is_ is None:
                     s_part = f"single=closed/1 percall={_res_word(ip)} open=0 intx=0 s+0/0"
+                    residue = 0
                 else:
                     s_part = (f"single={_res_word(is_)}/{1 if is_.used_shared else 0} percall={_res_word(ip)} "
                               f"open={1 if is_.open_after else 0} intx={1 if is_.intx_after else 0} s+{is_.opened}/{is_.closed}")
-                cr.impl.append(f"{s_part} p+{ip.opened}/{ip.closed}")
+                    residue = 1 if is_.residue else 0
+                cr.impl.append(f"{s_part} p+{ip.opened}/{ip.closed} res={residue}")
             if len(ts) > len(tp):
                 cr.lines.append(f"extra-sections|{op['op']}")
                 cr.impl.append(f"single ran {len(ts) - len(tp)} more section(s) than per-call: {[i.fn for i in ts[len(tp):]]}")
@@ -1068,6 +1421,16 @@ def run_case(case: dict, table: dict, out: Outcome, tmp: str, idx: int) -> CaseR
         tbl = next(t for t in d_s if d_s[t] != d_p.get(t))
         violate(f"C21/final_content_differs:{tbl}", f"after the history the table {tbl} differs between the modes: "
                 f"single {str(d_s[tbl])[:200]} vs per-call {str(d_p[tbl])[:200]}")
+    if orc.ok and not any(v.signature.startswith("C21/closed_shared_connection") for v in cr.violations):
+        for mname, d in (("single_connection", d_s), ("per_call", d_p)):
+            ids = sorted(r[0] for r in d.get("handlers", []) if isinstance(r, list))
+            if ids != sorted(orc.rows):
+                violate(f"C21/final_content_not_determined_by_history:handlers[{mname}]",
+                        f"after the history the {mname} store holds handlers {ids[:12]} ({len(ids)}), the updates and deletes "
+                        f"of the history leave {sorted(orc.rows)[:12]} ({len(orc.rows)})")
+        out.count("oracle:final-handlers-checked")
+    elif not orc.ok:
+        out.count("oracle:not-determined")
     sh = sides[0].shared
     alive = sh is not None and not getattr(sh, "_c21_closed", False)
     pend = alive and dump_via(sh) != d_s
@@ -1079,6 +1442,9 @@ def run_case(case: dict, table: dict, out: Outcome, tmp: str, idx: int) -> CaseR
                 sqlite3.Connection.close(side.shared)
         except Exception:
             pass
+    # what an operation answered first, what the connection was left with second (the first violation becomes the replay)
+    cr.violations.sort(key=lambda v: 2 if v.signature.startswith("C21/connection_state_left_behind") else
+                       0 if v.signature.startswith("C21/result_not_determined_by_call") else 1)
     return cr
 
 
@@ -1108,7 +1474,7 @@ def table_line(table: dict) -> str:
     inst = {n for o in table["ops"] for n in o["secs"]}
     oneconn = all(s["qual"] not in inst or s["acquire"] == "provider" for s in table["secs"])
     return (f"ok={int(ok)} noleak={int(noleak)} oneconn={int(oneconn)} secs={len(table['secs'])} ops={len(table['ops'])} "
-            f"unknowns={table['unknowns']} locks={int(bool(fl.get('lockPerStore')))}")
+            f"unknowns={table['unknowns']} locks={int(bool(fl.get('lockPerStore')))} noscratch={int(not table.get('scratch'))}")
 
 
 def strip_model(line: str) -> str:
@@ -1272,7 +1638,11 @@ def run(env: Env) -> Outcome:
                 "state-store objects of one workflow store (1-3 runs, so also several objects of one run) and workflow-store "
                 "operations, edit_state bodies that work on other stores up to two levels deep / wait for events set by other "
                 "tasks after their writes / yield / fail, random schedules run to quiescence under the scripted scheduler, the "
-                "same schedule in both connection modes; non-trivial = more than one scheduling decision")
+                "same schedule in both connection modes; non-trivial = more than one scheduling decision. Plus long-list "
+                "sweep histories: 6-24 handlers with unique run ids, then 8-18 steps of queries / deletes whose filter lists "
+                "carry 120-4000 values (1-2 swept columns per history, all four columns overall, overlapping and disjoint "
+                "padding, reversed / duplicated lists, second filter, is_idle), short-list calls, updates, "
+                "update_handler_status, state-store use")
     notes: list[str] = []
     table = gen.extract(notes)
     out.notes += notes
@@ -1341,8 +1711,23 @@ def run(env: Env) -> Outcome:
             # histories above are the same as before for a given seed)
             for _ in range(env.budget(90, 1500)):
                 sched_cases.append({"label": "generated schedule", "sched": sched.gen_scenario(env.rng)})
+            # histories with repeated long filter lists (drawn last: the streams above are unchanged for a given seed)
+            ll_cases = [gen_longlist_case(env.rng) for _ in range(env.budget(6, 80))]
             for j, sc_case in enumerate(sched_cases):
                 out.violations += sched_case(sc_case, tmp, j, out, lines, impl)
+            for j, case in enumerate(ll_cases):
+                cr = run_case(case, table, out, tmp, len(cases) + j)
+                lines += cr.lines
+                impl += cr.impl
+                out.violations += cr.violations
+                if cr.nontrivial:
+                    out.nontrivial(json.dumps(case["ops"], sort_keys=True, default=repr))
+                out.count("cases:long-list-sweeps")
+                for f in os.listdir(tmp):
+                    try:
+                        os.unlink(os.path.join(tmp, f))
+                    except OSError:
+                        pass
     finally:
         shutil.rmtree(tmp, ignore_errors=True)
     # malformed lines
@@ -1369,6 +1754,10 @@ def run(env: Env) -> Outcome:
             if mf.get("pend") == "1":
                 f["pend"] = "1"
             impl[i] = f"same={f.get('same')} pend={f.get('pend')} open={f.get('open')}"
+        # `res`: a section flagged as using connection-scoped objects need not leave any on a given call (short list):
+        # the model can only promise `res=0`
+        if l.startswith("sec|") and i < len(impl) and m.endswith(" res=1") and impl[i].endswith(" res=0"):
+            impl[i] = impl[i][:-1] + "1"
     d = diff_streams("sqliteconn", lines, model_out, impl)
     if d is not None:
         out.divergences.append(d)
